@@ -172,7 +172,7 @@ impl G {
             8 => {
                 if self.bc {
                     self.used.push("bcml");
-                    self.r.pick(&["/* a\n   b */", "/* a\n * b\n */", "/*\n  x\n    y\n*/"]).into()
+                    self.r.pick(&["/* a\n   b */", "/* a\n * b\n */", "/*\n  x\n    y\n*/", "/* a\n \n   b */", "/*\n    p\n  \n    q\n*/", "/* t\n\tu\n\t v */", "/* a\n\n  b\n */"]).into()
                 } else {
                     "".into()
                 }
@@ -180,7 +180,7 @@ impl G {
             9 => {
                 if self.off {
                     self.used.push("off");
-                    self.r.pick(&[" /* @typstyle off */ ", "// @typstyle off\n"]).into()
+                    self.r.pick(&[" /* @typstyle off */ ", "// @typstyle off\n", " /* @typstyle off*/ ", "/*@typstyle off*/", "// @typstyle off: hand-aligned\n", "// keep: @typstyle off.\n"]).into()
                 } else {
                     " ".into()
                 }
@@ -745,6 +745,32 @@ pub fn gram_case(idx: u64) -> (String, Cfg, Vec<&'static str>) {
 }
 
 // ---------------------------------------------------------------------------------------------
+// G-nl: generated documents in other line-ending styles (CRLF, bare CR, VT, FF, NEL, LS, PS)
+// ---------------------------------------------------------------------------------------------
+pub const NL_U: u64 = 300_000;
+pub fn nl_case(idx: u64) -> (String, Cfg, Vec<&'static str>) {
+    let mut r = Rng::new(mix(0x11E, idx));
+    let (src, cfg, used) = gram_case(r.next() % GRAM_U);
+    let styles = ["\r\n", "\r", "\u{2028}", "\u{85}", "\u{0b}", "\u{0c}", "\u{2029}", "\r", "\r\n"];
+    let nl = styles[r.below(styles.len())];
+    let out = if r.below(4) == 0 {
+        // mixed: only some line ends are replaced
+        let mut o = String::new();
+        for ch in src.chars() {
+            if ch == '\n' && r.below(2) == 0 {
+                o += nl;
+            } else {
+                o.push(ch);
+            }
+        }
+        o
+    } else {
+        src.replace('\n', nl)
+    };
+    (out, cfg, used)
+}
+
+// ---------------------------------------------------------------------------------------------
 // G-exh: every template x every gap x every trivia kind (single insertion)
 // ---------------------------------------------------------------------------------------------
 
@@ -840,10 +866,14 @@ pub const TRIVIA: &[&str] = &[
     " /* c */ ",
     "/* c */",
     "/* a\n   b */",
+    "/* a\n \n   b */",
+    "/*\n    p\n  \n    q\n*/",
     " // lc\n",
     "\n// own\n",
     " /* @typstyle off */ ",
     "// @typstyle off\n",
+    "/*@typstyle off*/",
+    "// @typstyle off: aligned by hand\n",
     "\n\n\n\n",
     "\r\n",
     "\t",
